@@ -21,8 +21,9 @@ from . import certlib as L
 from . import p_c01
 from .common import run_cases, model_output, coq_nat, coq_q, coq_list, coq_str, coq_z, Q, jsonable
 
-GEN_DEPS = ["PostSolve.v"]
+GEN_DEPS = ["PostSolve.v", "Entry.v"]
 TRUSTED = [
+    "translator/tr_entry.py: PEP.solve (back-end selection, forwarding of every option, defaults of both signatures) -> Gen/Entry.v",
     "translator/tr_postsolve.py: PEP._solve_with_wrapper (from the first wrapper.solve to the last return) -> Gen/PostSolve.v; "
     "its reading is cross-checked by the scripted-heuristic stream (ordered wrapper calls and outcome of real runs vs. the "
     "interpreter of the generated program)",
